@@ -6,6 +6,7 @@ import (
 	"context"
 	"flag"
 	"fmt"
+	"math"
 	"net"
 	"os"
 	"runtime"
@@ -55,6 +56,7 @@ type Config struct {
 	Class string   `json:"class"`
 	TCP   bool     `json:"loopback_tcp"`
 	Ages  bool     `json:"session_and_context_age_set"`
+	Seq   string   `json:"sequence_counter_start"` // "", "wrap" (just below 2^31-1) or "zero" (just below 0)
 }
 
 func kindsFor(p protos.P) []string {
@@ -117,7 +119,8 @@ func configs(tierName string, r *core.Rand) []Config {
 			c.N = ops / 2
 		}
 		c.TCP = i%5 == 4
-		c.Ages = i%4 == 3 // generous session / context ages: the deadline code paths run, no deadline can expire
+		c.Ages = i%4 == 3                         // generous session / context ages: the deadline code paths run, no deadline can expire
+		c.Seq = []string{"", "wrap", "zero"}[i%3] // the 32-bit sequence counter starts just below its wrap / just below zero
 		if *lean {
 			c.N = c.N/2 + 1
 		}
@@ -367,6 +370,15 @@ func runCase(id string, cfg Config, r *core.Rand) {
 			core.Result(core.R{ID: id, Verdict: core.Inconclusive, What: "connect: " + err.Error()})
 			return
 		}
+		// the state after ~2^31 (or ~2^32) messages on this session: the traffic crosses the wrap of the 32-bit sequence counter
+		switch cfg.Seq {
+		case "wrap":
+			erpc.VerifSetSeq(l.A, math.MaxInt32-int32(20+i*7))
+			erpc.VerifSetSeq(l.B, math.MaxInt32-int32(33+i*5))
+		case "zero":
+			erpc.VerifSetSeq(l.A, -int32(20+i*7))
+			erpc.VerifSetSeq(l.B, -int32(33+i*5))
+		}
 		links = append(links, l)
 	}
 	nonce := fmt.Sprintf("n%x", r.Uint64()&0xffffff)
@@ -511,7 +523,7 @@ func runCase(id string, cfg Config, r *core.Rand) {
 	core.Add("gate_hits", hits)
 	core.Add("evaluations", cs.callsOK+cs.callsFailed+cs.pushesSent)
 	core.Max("max_handlers_in_flight", mon.MaxFlight)
-	sig := fmt.Sprintf("%s/%s/pipe=%s/S%dG%d/%s/log=%s/delay=%d/tcp=%v", cfg.Proto, strings.Join(cfg.Kinds, "+"), cfg.Pipe, cfg.S, cfg.G, cfg.Chunk, cfg.Log, cfg.Delay, cfg.TCP && p.Stream) + fmt.Sprintf("/ages=%v", cfg.Ages)
+	sig := fmt.Sprintf("%s/%s/pipe=%s/S%dG%d/%s/log=%s/delay=%d/tcp=%v", cfg.Proto, strings.Join(cfg.Kinds, "+"), cfg.Pipe, cfg.S, cfg.G, cfg.Chunk, cfg.Log, cfg.Delay, cfg.TCP && p.Stream) + fmt.Sprintf("/ages=%v/seq=%s", cfg.Ages, cfg.Seq)
 	nontrivial := mon.MaxFlight >= 2 && (mon.Recycles >= 1 || *lean) && cs.callsOK > 0
 	if cfg.S == 1 && cfg.G == 1 {
 		nontrivial = cs.callsOK > 0 && (mon.Recycles >= 1 || *lean)
